@@ -77,9 +77,7 @@ def main():
         elif d["op"] == "branch" and out[0] == "ok":
             ref.branch(d["s"])
         outs.append([str(x) for x in out])
-        j = L.judge(uni, ref, d, out)
-        if j and j[0] == "value-on-unsat":
-            j = (j[0] + L.replaced_predicate(uni, solvers[d["s"]], d), j[1])
+        j = L.classify_replaced(uni, ref, solvers[d["s"]], d, out, L.judge(uni, ref, d, out))
         if j:
             fails.append([k, j[0], j[1]])
     json.dump({"fails": fails, "outs": outs}, sys.stdout)
